@@ -127,11 +127,37 @@ Section Loop.
 
   Lemma prfplus_negative K Sd (n : Z) : n < 0 -> prfplus hmac h K Sd n = Ok [].
   Proof.
-    intros Hn. unfold prfplus, prfplus_fuel. change (Z.to_nat 257) with (S (Z.to_nat 256)).
+    intros Hn. unfold prfplus.
+    assert (Hf : exists f, prfplus_fuel = S f) by (exists (Z.to_nat 256); vm_compute; reflexivity).
+    destruct Hf as [f ->].
     cbn [prfplus_loop length]. replace (Z.of_nat 0 <? n) with false by lia.
     replace (Z.to_nat n) with 0%nat by lia. reflexivity.
   Qed.
 End Loop.
+
+(** Whatever the primitive returns (even empty strings), the Python loop ends: either the requested length is
+    reached or the counter leaves one octet.  257 units of fuel are never exhausted. *)
+Section Termination.
+  Variable hmac : hasher -> bytes -> bytes -> bytes.
+
+  Lemma loop_terminates h K Sd n : forall fuel j res temp, (j <= 255)%nat -> (257 <= fuel + j)%nat ->
+    prfplus_loop hmac fuel h K Sd n res temp (Z.of_nat j + 1) <> Diverged.
+  Proof.
+    induction fuel as [|fuel IH]; intros j res temp Hj Hfuel; [lia|].
+    cbn [prfplus_loop]. destruct (Z.of_nat (length res) <? n); [|discriminate].
+    destruct (Nat.eq_dec j 255) as [->|Hne].
+    - cbn. discriminate.
+    - rewrite counter_octet by lia. cbn [bind]. unfold prfplus_i_next.
+      replace (Z.of_nat j + 1 + 1) with (Z.of_nat (S j) + 1) by lia.
+      apply IH; lia.
+  Qed.
+
+  Lemma prfplus_terminates h K Sd n : prfplus hmac h K Sd n <> Diverged.
+  Proof.
+    unfold prfplus. change prfplus_i0 with (Z.of_nat 0 + 1).
+    apply loop_terminates; [lia|]. unfold prfplus_fuel. lia.
+  Qed.
+End Termination.
 
 (* ------------------------------------------------------------------------------------------- *)
 (** * struct.unpack of a prefix of the stream = octets at cumulative offsets *)
